@@ -71,6 +71,26 @@ SetVar(s, f, n, v) == [s EXCEPT !.fr[f] = MapSet(@, n, v)]
 NewCtx(s, c) == [s EXCEPT !.cx = Append(@, c)]
 LastCtx(s) == Len(s.cx)
 
+\* -- the two autoescape modes ---------------------------------------------------------------
+\* Every piece of template code has a LEXICAL mode, fixed when it is compiled: the template's own
+\* setting (select_autoescape by name), overridden inside {% autoescape <constant> %}; inside
+\* {% autoescape <expression> %} the code is "volatile" and asks the DYNAMIC mode each time.
+\* The dynamic mode belongs to a render context (context.eval_ctx; a derived context of a scoped
+\* block shares it with its origin: field ev): it starts as the setting of the template the
+\* context was made for and an autoescape block sets it for the duration of its body.  What
+\* the lexical mode decides: escaping of {{ }} output, ~, and whether a captured set / filter
+\* block is Markup.  What the dynamic mode decides: whether the result of a macro call, caller(),
+\* super() or self.block() is Markup (the mode of the CALLING context), and what the filters that
+\* take the eval context (join ...) see.
+DA(s, c) == s.cx[s.cx[c].ev].da
+SetDA(s, c, b) == [s EXCEPT !.cx[s.cx[c].ev].da = b]
+Mode(E, s) == IF E.vol THEN DA(s, E.cx) ELSE E.auto
+\* what a statement writes while its mode is off is written with autoescaping disabled, which the
+\* property counts as the template marking it safe: data and literal segments change their origin
+\* tag so that C15_NoLeak can tell them from segments that escaped escaping
+OffTag(segs) == [i \in 1..Len(segs) |-> IF segs[i].o \in {"data", "lit"} THEN [segs[i] EXCEPT !.o = "off-" \o @] ELSE segs[i]]
+Written(segs, mode) == IF mode THEN segs ELSE OffTag(segs)
+
 \* name lookup: scope chain (innermost first), then the context's own variables,
 \* then the context's parent (render arguments and globals); else undefined
 \* Predeclare (a deliberate, named deviation that models the implementation): a name that a
@@ -174,7 +194,7 @@ PyAttr(s, v, a) ==
       [] v.t = "module" -> IF MapHas(v.attrs, a) THEN [found |-> TRUE, v |-> v.attrs[a]]
                            ELSE [found |-> FALSE, v |-> VNone]
       [] v.t = "tref" -> IF MapHas(s.cx[v.cx].blocks, a)
-                         THEN [found |-> TRUE, v |-> [t |-> "bref", name |-> a, cx |-> v.cx, idx |-> 1, auto |-> v.auto]]
+                         THEN [found |-> TRUE, v |-> [t |-> "bref", name |-> a, cx |-> v.cx, idx |-> 1]]
                          ELSE [found |-> FALSE, v |-> VNone]
       [] v.t = "bref" -> IF a = "super"
                          THEN [found |-> TRUE,
@@ -291,10 +311,10 @@ Ev(e, s, E) ==
            LET l == LookupChain(s, E.sc, e.n) IN
            IF l.found THEN R(l.v, s)
            ELSE IF e.n = "self" /\ ~CtxGet(s, E.cx, "self").found
-                THEN R([t |-> "tref", cx |-> E.cx, auto |-> E.auto], s)
+                THEN R([t |-> "tref", cx |-> E.cx], s)
            ELSE IF e.n = "super" /\ E.blk.name # "" /\ ~CtxGet(s, E.cx, "super").found
                 THEN R(IF E.blk.idx + 1 <= Len(s.cx[E.cx].blocks[E.blk.name])
-                       THEN [t |-> "bref", name |-> E.blk.name, cx |-> E.cx, idx |-> E.blk.idx + 1, auto |-> E.auto]
+                       THEN [t |-> "bref", name |-> E.blk.name, cx |-> E.cx, idx |-> E.blk.idx + 1]
                        ELSE VUndef([k |-> "hint", n |-> "there is no parent block called " \o E.blk.name]), s)
            ELSE Lookup(s, E, e.n)
       [] e.k = "list" ->
@@ -341,7 +361,7 @@ Ev(e, s, E) ==
                 ELSE R(VUndef([k |-> "condelse", n |-> "the inline if-expression evaluated to false and no else section was defined"]), tt.S)
       [] e.k = "concat" ->
            LET r == EvList(e.items, s, E) IN
-           IF Bad(r) THEN R(VNone, r.S) ELSE Lift(Concat(r.v, E.auto, UK), r.S)
+           IF Bad(r) THEN R(VNone, r.S) ELSE Lift(Concat(r.v, Mode(E, r.S), UK), r.S)
       [] e.k = "getattr" ->
            LET a == Ev(e.a, s, E) IN IF Bad(a) THEN a ELSE GetAttr(a.S, a.v, e.n)
       [] e.k = "getitem" ->
@@ -356,7 +376,7 @@ Ev(e, s, E) ==
                 IF Bad(lo) THEN lo
                 ELSE LET hi == IF Has(e, "hi") THEN Ev(e.hi, lo.S, E) ELSE R(VNone, lo.S) IN
                      IF Bad(hi) THEN hi
-                     ELSE IF a.v.t = "undef" THEN Fail(hi.S, "UndefinedError")
+                     ELSE IF a.v.t = "undef" THEN (IF UKof(a.v, UK) = "chainable" THEN R(a.v, hi.S) ELSE Fail(hi.S, "UndefinedError"))
                      ELSE IF a.v.t # "list" \/ IsRange(a.v) THEN Fail(hi.S, "EXCLUDED")
                      ELSE IF lo.v.t \notin {"int", "none"} \/ hi.v.t \notin {"int", "none"} THEN Fail(hi.S, "EXCLUDED")
                      ELSE LET n == Len(a.v.v)
@@ -480,7 +500,7 @@ CallValue(f, args, kw, s, E) ==
            ELSE LET s0 == [s EXCEPT !.out = <<>>]
                     r == RunLoop(f.node, args[1], f.depth0 + 1, s0, f.E, TRUE, TRUE) IN
                 IF r.err # "" THEN R(VNone, [r EXCEPT !.out = s.out])
-                ELSE R(VStr(r.out, f.E.auto), [r EXCEPT !.out = s.out])
+                ELSE R(VStr(r.out, Mode(f.E, r)), [r EXCEPT !.out = s.out])
       [] f.t = "loopcycle" ->
            IF args = <<>> THEN Fail(s, "TypeError")
            ELSE R(args[(f.l.i % Len(args)) + 1], s)
@@ -493,11 +513,13 @@ CallValue(f, args, kw, s, E) ==
 RenderBlockRef(b, s, E) ==
     LET def == s.cx[b.cx].blocks[b.name][b.idx]
         s0 == NewFrame([s EXCEPT !.out = <<>>], def.pre)
-        E2 == [sc |-> <<LastFrame(s0)>>, cx |-> b.cx, auto |-> def.auto, tpl |-> def.tpl, top |-> FALSE,
+        E2 == [sc |-> <<LastFrame(s0)>>, cx |-> b.cx, auto |-> def.auto, vol |-> def.vol, tpl |-> def.tpl,
+               top |-> FALSE, roc |-> FALSE,
                blk |-> [name |-> b.name, idx |-> b.idx], loopd |-> 0, dep |-> E.dep + 1]
         r == ExSeq(def.body, s0, E2) IN
     IF r.err # "" THEN R(VNone, [r EXCEPT !.out = s.out])
-    ELSE R(VStr(r.out, b.auto), [r EXCEPT !.out = s.out])
+    \* BlockReference.__call__: Markup iff the context's dynamic mode is on
+    ELSE R(VStr(r.out, DA(r, b.cx)), [r EXCEPT !.out = s.out])
 
 (* -- macros: the calling rules of property C06 (see MacroBind.tla for the full rule set) *)
 \* fill parameters: positional first, then keywords by name, then defaults
@@ -512,8 +534,8 @@ BindParams(m, i, args, kw, s, fid) ==
          IF i <= Len(args) THEN BindParams(m, i + 1, args, kw, SetVar(s, fid, p, args[i]), fid)
          ELSE IF kv.found THEN BindParams(m, i + 1, args, kw, SetVar(s, fid, p, kv.v), fid)
          ELSE IF di >= 1 THEN
-              LET Ed == [sc |-> <<fid>> \o m.sc, cx |-> m.cx, auto |-> m.auto, tpl |-> m.tpl, top |-> FALSE,
-                         blk |-> m.blk, loopd |-> 0, dep |-> 0]
+              LET Ed == [sc |-> <<fid>> \o m.sc, cx |-> m.cx, auto |-> m.auto, vol |-> m.vol, tpl |-> m.tpl,
+                         top |-> FALSE, roc |-> FALSE, blk |-> m.blk, loopd |-> 0, dep |-> 0]
                   r == Ev(m.defaults[di], s, Ed) IN
               IF Bad(r) THEN r.S ELSE BindParams(m, i + 1, args, kw, SetVar(r.S, fid, p, r.v), fid)
          ELSE BindParams(m, i + 1, args, kw,
@@ -545,11 +567,13 @@ InvokeMacro(m, args, kw, s, E) ==
               THEN SetVar(s3, fid, "caller",
                           IF callerKw.found THEN callerKw.v
                           ELSE VUndef([k |-> "hint", n |-> "No caller defined"])) ELSE s3
-        Em == [sc |-> <<fid>> \o m.sc, cx |-> m.cx, auto |-> m.auto, tpl |-> m.tpl, top |-> FALSE,
-               blk |-> m.blk, loopd |-> 0, dep |-> E.dep + 1]
+        Em == [sc |-> <<fid>> \o m.sc, cx |-> m.cx, auto |-> m.auto, vol |-> m.vol, tpl |-> m.tpl,
+               top |-> FALSE, roc |-> FALSE, blk |-> m.blk, loopd |-> 0, dep |-> E.dep + 1]
         r == IF s4.err # "" THEN s4 ELSE ExSeq(m.body, s4, Em)
     IN IF r.err # "" THEN R(VNone, [r EXCEPT !.out = s.out])
-       ELSE R(VStr(r.out, m.auto), [r EXCEPT !.out = s.out, !.flow = ""])
+       \* Macro.__call__: the body escapes by its own lexical mode; the result is Markup iff the
+       \* dynamic mode of the CALLER's context is on at the time of the call
+       ELSE R(VStr(r.out, DA(s, E.cx)), [r EXCEPT !.out = s.out, !.flow = ""])
 
 (* -- filters (the subset the interpreter models exactly) ------------------------------------ *)
 RECURSIVE SumInts(_), InsertSorted(_, _), SortInts(_), JoinWith(_, _, _, _), RevSeq(_)
@@ -652,7 +676,7 @@ ApplyFilter(n, v, args, kw, s, E) ==
                it == IterItems(v) IN
            IF ~it.ok THEN Fail(s, it.err)
            ELSE IF Len(args) > 1 \/ KwGet(kw, "attribute").found THEN Fail(s, "EXCLUDED")
-           ELSE IF ~E.auto THEN
+           ELSE IF ~DA(s, E.cx) THEN
                 LET parts == [i \in 1..Len(it.v) |-> ToStr(it.v[i], UK)]
                     sp == ToStr(sepv, UK) IN
                 IF \E i \in 1..Len(parts) : ~parts[i].ok
@@ -714,7 +738,9 @@ ApplyTest(n, v, args, s, E) ==
 Emit(s, segs) == [s EXCEPT !.out = @ \o segs]
 
 \* does the current render suppress top-level output? (after `extends` in a child template)
-Suppressed(s, E) == E.top /\ s.cx[E.cx].par # ""
+\* (Frame.require_output_check: for / with / autoescape bodies at the top level keep it, bodies that
+\* are captured or called - macros, call blocks, set and filter blocks, blocks - do not)
+Suppressed(s, E) == E.roc /\ s.cx[E.cx].par # ""
 
 \* assignment: the innermost scope; at template top level the variable is also exported
 Assign(s, E, n, v, exportable) ==
@@ -752,7 +778,7 @@ InScope(body, s, E, init) ==
 
 \* capture the output of a body executed in a fresh scope
 Capture(body, s, E, init) ==
-    LET r == InScope(body, [s EXCEPT !.out = <<>>], E, init) IN
+    LET r == InScope(body, [s EXCEPT !.out = <<>>], [E EXCEPT !.roc = FALSE], init) IN
     [S |-> [r EXCEPT !.out = s.out], text |-> r.out]
 
 \* the items of a for loop after applying the loop filter (filter sees the target, not `loop`)
@@ -794,17 +820,18 @@ RunLoop(node, itv, depth0, s, E, isRec, inner) ==
        ELSE IF items = <<>> /\ Has(node, "else") THEN InScope(node["else"], done, E, PreMap(node, "pre_else"))
        ELSE done
 
+TplAuto(tname) == Tpls[tname].auto
+
 \* the context an included / imported template gets
 ChildCtx(s, tname, parentMap) ==
     LET s0 == NewFrame(s, EmptyMap) IN
     NewCtx(s0, [vars |-> LastFrame(s0), parent |-> parentMap, exported |-> {}, blocks |-> EmptyMap,
-                par |-> "", tpl |-> tname, chain |-> <<>>, xg |-> EmptyMap])
-
-TplAuto(tname) == Tpls[tname].auto
+                par |-> "", tpl |-> tname, chain |-> <<>>, xg |-> EmptyMap,
+                da |-> TplAuto(tname), ev |-> Len(s0.cx) + 1])
 
 RootEnv(s, c, tname, dep) ==
-    [sc |-> <<s.cx[c].vars>>, cx |-> c, auto |-> TplAuto(tname), tpl |-> tname, top |-> TRUE,
-     blk |-> [name |-> "", idx |-> 0], loopd |-> 0, dep |-> dep]
+    [sc |-> <<s.cx[c].vars>>, cx |-> c, auto |-> TplAuto(tname), vol |-> FALSE, tpl |-> tname, top |-> TRUE,
+     roc |-> TRUE, blk |-> [name |-> "", idx |-> 0], loopd |-> 0, dep |-> dep]
 
 \* register the blocks of template `tname` at the end of every block stack of context c
 RegisterBlocks(s, c, tname) ==
@@ -813,7 +840,12 @@ RegisterBlocks(s, c, tname) ==
         names == DOMAIN bs
         new == [n \in (DOMAIN old) \cup names |->
                    (IF n \in DOMAIN old THEN old[n] ELSE <<>>) \o
-                   (IF n \in names THEN <<[tpl |-> tname, body |-> bs[n].body, auto |-> TplAuto(tname),
+                   \* a block is compiled with the lexical mode of the place where it is written
+                   (IF n \in names THEN <<[tpl |-> tname, body |-> bs[n].body,
+                                           auto |-> (IF Fld(bs[n], "amode", "default") = "on" THEN TRUE
+                                                     ELSE IF Fld(bs[n], "amode", "default") = "off" THEN FALSE
+                                                     ELSE TplAuto(tname)),
+                                           vol |-> Fld(bs[n], "amode", "default") = "vol",
                                            scoped |-> bs[n].scoped, required |-> bs[n].required,
                                            pre |-> PreMap(bs[n], "pre")]>> ELSE <<>>)]
     IN [s EXCEPT !.cx[c].blocks = new, !.cx[c].chain = Append(@, tname)]
@@ -869,16 +901,18 @@ Ex(st, s, E) ==
     CASE st.k = "text" ->
            IF Suppressed(s, E) THEN s ELSE Emit(s, <<Seg(st.s, 0, "tpl")>>)
       [] st.k = "out" ->
+           \* outside of blocks a child template does not even evaluate the expression
+           IF Suppressed(s, E) THEN s ELSE
            LET r == Ev(st.e, s, E) IN
            IF Bad(r) THEN r.S
            ELSE LET o == IF r.v.t = "obj" /\ "str" \in DOMAIN Objs[r.v.id]
                          THEN (IF Objs[r.v.id].str.t = "raiser" THEN Err("Raised:" \o Objs[r.v.id].str.id)
-                               ELSE OutputOf(Objs[r.v.id].str, E.auto, UK))
-                         ELSE OutputOf(r.v, E.auto, UK)
+                               ELSE OutputOf(Objs[r.v.id].str, Mode(E, r.S), UK))
+                         ELSE OutputOf(r.v, Mode(E, r.S), UK)
                     s1 == IF Fld(Case, "emit_values", FALSE) /\ r.v.t \in {"int", "bool", "none", "str", "list", "dict", "undef", "obj", "fn"}
                           THEN Log(r.S, <<"value", r.v>>) ELSE r.S IN
                 IF ~o.ok THEN Fail(s1, o.err).S
-                ELSE IF Suppressed(s1, E) THEN s1 ELSE Emit(s1, o.v.s)
+                ELSE IF Suppressed(s1, E) THEN s1 ELSE Emit(s1, Written(o.v.s, Mode(E, s1)))
       [] st.k = "if" ->
            \* branches share the enclosing scope
            LET RECURSIVE Br(_, _)
@@ -898,7 +932,7 @@ Ex(st, s, E) ==
       [] st.k = "setblock" ->
            LET c == Capture(st.body, s, E, PreMap(st, "pre")) IN
            IF c.S.err # "" THEN c.S
-           ELSE LET v0 == VStr(c.text, E.auto)
+           ELSE LET v0 == VStr(c.text, Mode(E, c.S))
                     r == IF Has(st, "filter")
                          THEN ApplyFilter(st.filter, v0, <<>>, [n |-> <<>>, v |-> <<>>], c.S, E)
                          ELSE R(v0, c.S) IN
@@ -909,44 +943,53 @@ Ex(st, s, E) ==
            IF Bad(r) THEN r.S ELSE InScope(st.body, r.S, E, MapFromSeqs(st.names, r.v) @@ PreMap(st, "pre"))
       [] st.k = "macro" ->
            LET m == [t |-> "macro", name |-> st.name, params |-> st.params, defaults |-> st.defaults,
-                     body |-> st.body, sc |-> E.sc, cx |-> E.cx, auto |-> E.auto, tpl |-> E.tpl,
+                     body |-> st.body, sc |-> E.sc, cx |-> E.cx, auto |-> E.auto, vol |-> E.vol, tpl |-> E.tpl,
                      varargs |-> st.varargs, kwargs |-> st.kwargs, caller |-> st.caller, blk |-> E.blk,
                      pre |-> PreMap(st, "pre")]
            IN Assign(s, E, st.name, m, Fld(st, "exp", TRUE))
       [] st.k = "callblock" ->
            \* {% call(params) f(args) %}body{% endcall %}: the body becomes the `caller` macro
            LET cm == [t |-> "macro", name |-> "caller", params |-> st.params, defaults |-> st.defaults,
-                      body |-> st.body, sc |-> E.sc, cx |-> E.cx, auto |-> E.auto, tpl |-> E.tpl,
+                      body |-> st.body, sc |-> E.sc, cx |-> E.cx, auto |-> E.auto, vol |-> E.vol, tpl |-> E.tpl,
                       varargs |-> FALSE, kwargs |-> FALSE, caller |-> FALSE, blk |-> E.blk,
                       pre |-> PreMap(st, "pre")]
                f == Ev(st.f, s, E) IN
-           IF Bad(f) THEN f.S
+           IF Suppressed(s, E) THEN s
+           ELSE IF Bad(f) THEN f.S
            ELSE LET as == EvList(st.args, f.S, E) IN
                 IF Bad(as) THEN as.S
                 ELSE LET ks == EvList(st.kwvals, as.S, E) IN
                      IF Bad(ks) THEN ks.S
                      ELSE LET r == CallValue(f.v, as.v, [n |-> Append(st.kwnames, "caller"), v |-> Append(ks.v, cm)], ks.S, E) IN
                           IF Bad(r) THEN r.S
-                          ELSE LET o == OutputOf(r.v, E.auto, UK) IN
+                          ELSE LET o == OutputOf(r.v, Mode(E, r.S), UK) IN
                                IF ~o.ok THEN Fail(r.S, o.err).S
-                               ELSE IF Suppressed(r.S, E) THEN r.S ELSE Emit(r.S, o.v.s)
+                               ELSE Emit(r.S, Written(o.v.s, Mode(E, r.S)))
       [] st.k = "filterblock" ->
            LET c == Capture(st.body, s, E, PreMap(st, "pre")) IN
-           IF c.S.err # "" THEN c.S
+           IF Suppressed(s, E) THEN s
+           ELSE IF c.S.err # "" THEN c.S
            ELSE LET as == EvList(Fld(st, "args", <<>>), c.S, E) IN
                 IF Bad(as) THEN as.S
-                ELSE LET r == ApplyFilter(st.filter, VStr(c.text, E.auto), as.v, [n |-> <<>>, v |-> <<>>], as.S, E) IN
+                ELSE LET r == ApplyFilter(st.filter, VStr(c.text, Mode(E, as.S)), as.v, [n |-> <<>>, v |-> <<>>], as.S, E) IN
                      IF Bad(r) THEN r.S
-                     ELSE LET o == OutputOf(r.v, E.auto, UK) IN
+                     ELSE LET o == OutputOf(r.v, Mode(E, r.S), UK) IN
                           IF ~o.ok THEN Fail(r.S, o.err).S
-                          ELSE IF Suppressed(r.S, E) THEN r.S ELSE Emit(r.S, o.v.s)
+                          ELSE Emit(r.S, Written(o.v.s, Mode(E, r.S)))
       [] st.k = "autoescape" ->
            LET r == Ev(st.e, s, E) IN
            IF Bad(r) THEN r.S
+           \* (the real block stores the value and takes its truth at each use; a strict undefined
+           \* would fail at the first use instead of here)
+           ELSE IF r.v.t = "undef" /\ UKof(r.v, UK) = "strict" THEN Fail(r.S, "EXCLUDED").S
            ELSE LET t == TruthR(r.v, r.S) IN
                 IF Bad(t) THEN t.S
-                ELSE \* an autoescape block is not a scope: assignments inside are visible after it
-                     ExSeq(st.body, t.S, [E EXCEPT !.auto = t.v.b])
+                ELSE \* the body is a scope of its own (like with).  A constant expression switches the lexical mode; any other makes the body
+                     \* volatile.  The dynamic mode is set for the body and restored however it ends.
+                     LET old == DA(t.S, E.cx)
+                         E2 == IF st.e.k = "const" THEN [E EXCEPT !.auto = t.v.b] ELSE [E EXCEPT !.vol = TRUE]
+                         r2 == InScope(st.body, SetDA(t.S, E.cx, t.v.b), E2, PreMap(st, "pre")) IN
+                     SetDA(r2, E.cx, old)
       [] st.k = "do" -> LET r == Ev(st.e, s, E) IN r.S       \* {% do expr %}: evaluated for its effects only
       [] st.k = "break" -> [s EXCEPT !.flow = "break"]
       [] st.k = "continue" -> [s EXCEPT !.flow = "continue"]
@@ -963,11 +1006,13 @@ Ex(st, s, E) ==
                                LET s0 == NewFrame(s, EmptyMap) IN
                                NewCtx(s0, [vars |-> LastFrame(s0), parent |-> Visible(s, E), exported |-> {},
                                            blocks |-> s.cx[E.cx].blocks, par |-> "", tpl |-> s.cx[E.cx].tpl,
-                                           chain |-> s.cx[E.cx].chain, xg |-> EmptyMap])
+                                           chain |-> s.cx[E.cx].chain, xg |-> EmptyMap,
+                                           da |-> FALSE, ev |-> s.cx[E.cx].ev])      \* derived: shares the eval context
                           ELSE s
                     cB == IF st.scoped THEN LastCtx(sA) ELSE E.cx
                     s0 == NewFrame(sA, def.pre)
-                    E2 == [sc |-> <<LastFrame(s0)>>, cx |-> cB, auto |-> def.auto, tpl |-> def.tpl, top |-> FALSE,
+                    E2 == [sc |-> <<LastFrame(s0)>>, cx |-> cB, auto |-> def.auto, vol |-> def.vol, tpl |-> def.tpl,
+                           top |-> FALSE, roc |-> FALSE,
                            blk |-> [name |-> st.name, idx |-> 1], loopd |-> 0, dep |-> E.dep + 1] IN
                 ExSeq(def.body, s0, E2)
       [] st.k = "extends" ->
@@ -982,7 +1027,8 @@ Ex(st, s, E) ==
                      [s2 EXCEPT !.cx[E.cx].par = p.n]
       [] st.k = "include" ->
            LET r == Ev(st.e, s, E) IN
-           IF Bad(r) THEN r.S
+           IF Suppressed(s, E) THEN s       \* outside of blocks a child template includes nothing
+           ELSE IF Bad(r) THEN r.S
            ELSE LET p == PickTemplate(r.v) IN
                 IF p.n = "?" THEN Fail(r.S, "EXCLUDED").S
                 ELSE IF ~p.ok THEN (IF st.ignore_missing THEN r.S ELSE Fail(r.S, "TemplateNotFound").S)
@@ -991,11 +1037,10 @@ Ex(st, s, E) ==
                          LET s2 == ChildCtx([s1 EXCEPT !.out = <<>>], p.n, Visible(s1, E))
                              rr == RenderTemplateBody(p.n, LastCtx(s2), s2, E.dep + 1) IN
                          IF rr.err # "" THEN [rr EXCEPT !.out = s1.out]
-                         ELSE IF Suppressed(s1, E) THEN [rr EXCEPT !.out = s1.out]
                          ELSE [rr EXCEPT !.out = s1.out \o rr.out]
                      ELSE LET m == DefaultModule(p.n, s1, E) IN
                           IF Bad(m) THEN m.S
-                          ELSE IF Suppressed(m.S, E) THEN m.S ELSE Emit(m.S, m.v.body.s)
+                          ELSE Emit(m.S, m.v.body.s)
       [] st.k \in {"import", "fromimport"} ->
            LET r == Ev(st.e, s, E) IN
            IF Bad(r) THEN r.S
@@ -1034,7 +1079,8 @@ InitS ==
     LET top == EmptyMap IN
     [fr |-> <<top>>, ns |-> <<>>,
      cx |-> <<[vars |-> 1, parent |-> Data @@ TGlobals @@ Globals, exported |-> {}, blocks |-> EmptyMap,
-               par |-> "", tpl |-> Case.main, chain |-> <<>>, xg |-> TGlobals]>>,
+               par |-> "", tpl |-> Case.main, chain |-> <<>>, xg |-> TGlobals,
+               da |-> Tpls[Case.main].auto, ev |-> 1]>>,
      out |-> <<>>, log |-> <<>>, err |-> "", flow |-> "", mods |-> EmptyMap]
 
 Init ==
@@ -1092,7 +1138,8 @@ Again ==
     /\ npass' = 2
     /\ LET s0 == NewFrame([S EXCEPT !.out = <<>>, !.log = <<>>, !.err = "", !.flow = ""], PreMap(Tpls[Case.main], "pre"))
            s1 == NewCtx(s0, [vars |-> LastFrame(s0), parent |-> Data @@ TGlobals @@ Globals, exported |-> {}, blocks |-> EmptyMap,
-                             par |-> "", tpl |-> Case.main, chain |-> <<>>, xg |-> TGlobals])
+                             par |-> "", tpl |-> Case.main, chain |-> <<>>, xg |-> TGlobals,
+                             da |-> Tpls[Case.main].auto, ev |-> Len(s0.cx) + 1])
        IN /\ S' = RegisterBlocks(s1, LastCtx(s1), Case.main)
           /\ rootcx' = LastCtx(s1)
     /\ todo' = Tpls[Case.main].body
@@ -1103,11 +1150,12 @@ Next == StepTop \/ StepParent \/ Finish \/ Again
 Spec == Init /\ [][Next]_vars
 
 (* -- properties checked on every state -------------------------------------------------- *)
-\* C15: with autoescaping on for the whole case, every output segment that stems from
-\* context data or from a string literal has been escaped at least once, unless the
-\* program itself marks values safe (Case.marks_safe)
+\* C15: every output segment that stems from context data or from a string literal has been escaped
+\* at least once, unless the program itself marks values safe (Case.marks_safe) or the segment was
+\* written by a statement whose autoescape mode is off (a template the selector does not escape, an
+\* {% autoescape false %} block: origin tags "off-data" / "off-lit", see OffTag)
 C15_NoLeak ==
-    (Cfg.all_auto /\ ~Case.marks_safe) =>
+    ~Case.marks_safe =>
         \A i \in 1..Len(S.out) : S.out[i].o \in {"data", "lit"} => S.out[i].e >= 1
 
 \* C16: escaping-neutral programs escape every such segment exactly once
